@@ -3,10 +3,10 @@
 CONFIG = {
     "lean_modules": ["MithrilModel.Properties.C20"],
     "theorems": [
-        "C20.C20_offsets", "C20.C20_offsets_run", "C20.C20_never_before_registered",
+        "C20.C20_offsets", "C20.C20_offsets_run", "C20.C20_offsets_both_sides", "C20.C20_never_before_registered",
         "C20.C20_once_partial", "C20.C20_once_core", "C20.C20_republish_counterexample", "C20.C20_republish_same",
         "C20.C20_restart", "C20.C20_restart_no_blind_signature", "C20.C20_missed_registration_note",
-        "Signer.run_once", "Signer.run_reg", "Signer.publish_only_when_ready",
+        "Signer.run_once", "Signer.run_reg", "Signer.run_reg_agg", "Signer.publish_only_when_ready",
         "SignerOnce.once", "SignerOnce.offsets_agree", "SignerOnce.republish_counterexample",
     ],
     "level_text": "PARTIAL for 'every run of the signer'. Proved in Lean, for every event list (histories and fault sequences) of a "
@@ -15,7 +15,8 @@ CONFIG = {
                   "epoch view, fault schedule, restarts): each (entity, beacon) is published at most once as long as no "
                   "mark_beacon_as_signed failure follows a successful publication; every publication comes out of ReadyToSign with a "
                   "stored initializer whose key is in the current signer list; the key was written by a registration sent two epochs "
-                  "earlier under recording epoch = retrieval epoch of the signing epoch; restart keeps tables and invariants. The model "
+                  "earlier under recording epoch = retrieval epoch of the signing epoch, the signing epoch is the chain epoch, and the "
+                  "key is in the aggregator's own (closed) signer list for that epoch; restart keeps tables and invariants. The model "
                   "is compared event by event with the REAL signer (state machine, runner, services, sqlite files, HTTP client, "
                   "production publisher wiring) driven through /repo's fake aggregator behind a fault-injecting proxy, and the property "
                   "is evaluated directly on the real behaviour: once-ness, verification of every published signature by a real "
@@ -66,8 +67,8 @@ CONFIG = {
         "C20_once_goal is FALSE on the current tree (C20_republish_counterexample): known finding C20-republish-after-mark-failure",
         "C20_accepted (composition with the aggregator model Agg.registerSignature) not stated; acceptance is checked by S on real "
         "signatures with a real MultiSigner",
-        "aggregator-side half of C20_offsets in the model (the served signer list equals the registrations recorded under epoch-1, "
-        "and the signing epoch equals the chain epoch) is checked by K/S only",
+        "C20_marked_implies_published (a beacon is marked only after its signature reached the aggregator or no lottery was won; "
+        "breaks under mark-before-publish) is evaluated by S on the real signer only, not stated in Lean",
         "stake distribution in force (stakes[epoch-1] = distribution of epoch-2) is checked by K (stake table) and S (verification "
         "under the reference distribution) only",
     ],
